@@ -140,6 +140,16 @@ fn run_scenario(sc: &Value, idx: usize, bin: &Path, scratch: &Path, local: bool)
         std::os::unix::fs::symlink("../elsewhere/sub", d.join("proj/via-link")).unwrap();
         cfg["app_dir"] = json!("via-link/../fixture app");
     }
+    // every third configuration also mounts sources that exist: a symlink, the directory it points to (two
+    // different sources, two mounts) and a spelling of it with ".." - what is configured is what docker gets
+    if idx % 3 == 1 {
+        fs::create_dir_all(d.join("mnt/releases/v1")).unwrap();
+        std::os::unix::fs::symlink("releases/v1", d.join("mnt/current")).unwrap();
+        let m = cfg["container"]["mounts"].as_array_mut().unwrap();
+        m.push(json!([d.join("mnt/current").to_string_lossy(), "/srv/current"]));
+        if idx % 2 == 1 { m.push(json!([d.join("mnt/releases/v1").to_string_lossy(), "/srv/v1"])); }
+        if idx % 4 == 1 { m.push(json!([d.join("mnt/releases/../releases/v1").to_string_lossy(), "/srv/dotted"])); }
+    }
     // local mode: the manifest directory is a buildpack crate in a Cargo workspace with a second
     // crate and a composite buildpack; buildpack references mix CurrentCrate / WorkspaceBuildpack /
     // Other and the (dependency-free) crates are really compiled and packaged
